@@ -303,7 +303,7 @@ func checkStalls(t *testing.T) {
 	}
 }
 
-var rec = ev.New("c05/acceptance", "rapid: a real IPClient (plain or NTS after a real key exchange with the harness's TLS key-exchange server; interleaved mode on/off, 0..2 clean warm-up exchanges) sends its request to the harness's server model, which answers with a script of 1..3 datagrams, each built for its own server clock offset (>= 2 s apart) and mutated: genuine; arbitrary bytes; single-field mutations (origin bit / zero, mode, version, leap, stratum, transmit before receive, truncation, harmless fields); NTS: flipped bit anywhere in the extension fields, other request's identifier, authenticator sealed under the C2S key or a random key, authenticator removed, keyless authenticator with a ciphertext shorter than the tag, extension-length edits; sent from the queried address, another address, or another port of the queried address. Oracle: success => the reported offset lies in the envelope computed from the timestamps carried by exactly one delivered datagram that is acceptable by the statement's predicate (evaluated independently, NTS with own walker + miscreant); no acceptable datagram delivered => error; a lone genuine reply => success. One evaluation = one scripted exchange. Non-trivial: >= 1 non-acceptable datagram was delivered; distinct by (mode, script description)")
+var rec = ev.New("c05/acceptance", "rapid: a real IPClient (plain or NTS after a real key exchange with the harness's TLS key-exchange server; interleaved mode on/off, 0..2 clean warm-up exchanges) sends its request to the harness's server model, which answers with a script of 1..3 datagrams, each built for its own server clock offset (>= 2 s apart) and mutated: genuine; arbitrary bytes; single-field mutations (origin bit / zero, mode, version, leap, stratum, transmit before receive, truncation, harmless fields); NTS: flipped bit anywhere in the extension fields, other request's identifier, an identifier that only starts with the request's or is a zero-padded prefix of it (correctly sealed), authenticator sealed under the C2S key or a random key, authenticator removed, keyless authenticator with a ciphertext shorter than the tag, extension-length edits; sent from the queried address, another address, or another port of the queried address. Oracle: success => the reported offset lies in the envelope computed from the timestamps carried by exactly one delivered datagram that is acceptable by the statement's predicate (evaluated independently, NTS with own walker + miscreant); no acceptable datagram delivered => error; a lone genuine reply => success. One evaluation = one scripted exchange. Non-trivial: >= 1 non-acceptable datagram was delivered; distinct by (mode, script description)")
 
 func TestPropAcceptance(t *testing.T) {
 	noRequest, judged = 0, 0
@@ -385,7 +385,7 @@ func TestPropAcceptance(t *testing.T) {
 			d.mut = rapid.SampledFrom(headerMutations).Draw(t, "mutation")
 			d.via = rapid.SampledFrom([]string{"server", "server", "server", "server", "other-address", "other-port"}).Draw(t, "via")
 			if useNTS {
-				d.nts = rapid.SampledFrom([]string{"genuine", "genuine", "bitflip", "other-uid", "sealed-c2s", "sealed-random", "no-auth", "len-edit", "plain", "short-ciphertext"}).Draw(t, "nts-mutation")
+				d.nts = rapid.SampledFrom([]string{"genuine", "genuine", "bitflip", "other-uid", "longer-uid", "shorter-uid", "sealed-c2s", "sealed-random", "no-auth", "len-edit", "plain", "short-ciphertext"}).Draw(t, "nts-mutation")
 			}
 			plan = append(plan, d)
 		}
@@ -426,6 +426,17 @@ func TestPropAcceptance(t *testing.T) {
 						u := otherUID
 						if u == nil || bytes.Equal(u, uid) {
 							u = bytes.Repeat([]byte{9}, 32)
+						}
+						data = seal(hdr, u, k.s2c, 1, byte(i))
+					case "longer-uid", "shorter-uid":
+						// correctly sealed under S2C, but for an identifier that only starts with the request's (4, 8 or 32
+						// more bytes), or is a prefix of it padded with zeros to the same field length
+						u := append(bytes.Clone(uid), bytes.Repeat([]byte{byte(0x30 + i)}, []int{4, 8, 32}[i%3])...)
+						if d.nts == "shorter-uid" && len(uid) >= 8 {
+							u = append(bytes.Clone(uid[:len(uid)-4]), 0, 0, 0, 0)
+							if bytes.Equal(u, uid) {
+								u[len(u)-1] = 1
+							}
 						}
 						data = seal(hdr, u, k.s2c, 1, byte(i))
 					case "sealed-c2s":
